@@ -319,6 +319,21 @@ func pauses(part, parts int) {
 	if part == 0 {
 		ps = append(ps, 59999, 60000, 60001, 3599999, 3600000, 3600001, 86400000, 1<<30)
 	}
+	// pauses inside a message: every message of the alphabet cut at every inner
+	// position, seconds to days between the two pieces
+	if part == 1 {
+		for _, m := range alphabet {
+			sq := []ls.SMsg{m, alphabet[0]}
+			w := ls.Serialize(sq, 0)
+			n := len(m.Bytes)
+			for k := 1; k < n; k++ {
+				for _, p := range []int32{999, 1000, 9999, 10000, 10001, 59999, 60001, 3600000, 86400001, 1 << 30} {
+					play(sq, w, []int{k, n - k, 3}, []int32{1, p, 1}, "pause-inside")
+					ctx.Add("pauses_inside_messages", 1)
+				}
+			}
+		}
+	}
 	for _, p := range ps {
 		play(seq, wire, []int{3, 2}, []int32{p, 1}, "pause-sweep")
 		play(seq, wire, []int{3, 2}, []int32{1, p}, "pause-sweep")
